@@ -75,8 +75,8 @@ func (j *jdk) c14n(xml []byte, path string) ([]byte, error) {
 }
 
 // validate returns "VALID", "INVALID ..." or "ERR ..."
-func (j *jdk) validate(xml []byte) string {
-	ans, err := j.ask("validate 0 " + base64.StdEncoding.EncodeToString(xml))
+func (j *jdk) validate(xml []byte, which int, spki []byte) string {
+	ans, err := j.ask(fmt.Sprintf("validate 0 %d ", which) + base64.StdEncoding.EncodeToString(xml) + " " + base64.StdEncoding.EncodeToString(spki))
 	if err != nil {
 		return "ERR " + err.Error()
 	}
